@@ -125,7 +125,9 @@ func mainRun(args []string) int {
 	knownPath := fs.String("known", "", "")
 	maxSec := fs.Float64("max-seconds", 0, "stop generating new scenarios after this many seconds (0 = never)")
 	shrinkSec := fs.Float64("shrink-seconds", 20, "")
+	hashesPath := fs.String("hashes", "", "determinism self-test: write per-scenario outcome hashes here")
 	fs.Parse(args)
+	perIndex := map[string]string{}
 	p := properties[*prop]
 	if p == nil {
 		fmt.Fprintln(os.Stderr, "simexec: unknown property", *prop)
@@ -143,7 +145,22 @@ func mainRun(args []string) int {
 		}
 		sc := p.Gen(NewRng(scenarioSeed(*seed, *prop, idx)), idx, *tier)
 		sc.Seed, sc.Index = *seed, idx
+		var hs []uint64
+		if *hashesPath != "" {
+			execHashes = &hs
+		}
 		v := judgeSafely(p, sc)
+		execHashes = nil
+		if *hashesPath != "" {
+			h := hashStr(mustJSON(sc)) ^ hashStr(v.Sig+"|"+v.Class+"|"+v.Msg+"|"+v.NotJudged)
+			for i, x := range hs {
+				h = mix64(h ^ x ^ uint64(i))
+			}
+			perIndex[fmt.Sprint(idx)] = fmt.Sprintf("%016x/%d", h, len(hs))
+			if !v.OK {
+				continue // the self-test does not shrink
+			}
+		}
 		res.Runs++
 		res.Evals += v.Evals
 		res.OpsRun += v.Evals * len(sc.Ops)
@@ -204,6 +221,13 @@ func mainRun(args []string) int {
 		break // an unlisted violation ends this worker
 	}
 	res.WallS = time.Since(t0).Seconds()
+	if *hashesPath != "" {
+		hb, _ := json.Marshal(perIndex)
+		if err := ioutil.WriteFile(*hashesPath, hb, 0644); err != nil {
+			fmt.Fprintln(os.Stderr, "simexec:", err)
+			return 2
+		}
+	}
 	b, _ := json.Marshal(res)
 	if *outPath == "" {
 		fmt.Println(string(b))
